@@ -25,7 +25,7 @@ R4 + R6: max over a superset, block-wise), conservation as arithmetic (follows f
 """
 import ast
 
-from sa.astutil import dump, where, kwargs_of, walk_no_nested
+from sa.astutil import dump, where, kwargs_of, walk_no_nested, canon_text
 from sa.model import body_nodoc
 from sa.vn import VN, Poly, VNUnknown, comparable
 from rules import c05
@@ -672,7 +672,7 @@ def _check_builder(prog, rep, f):
     # shape (G.shape[0], G.shape[1], N, U.shape[1]); trait loop bound = last axis
     if isinstance(shape, ast.Tuple) and len(shape.elts) == 4:
         sh = [_strip(dump(e)) for e in shape.elts]
-        wantsh = ["%s.shape[0]" % G, "%s.shape[1]" % G, N, "%s.shape[1]" % U]
+        wantsh = [_strip(canon_text(w)) for w in ("%s.shape[0]" % G, "%s.shape[1]" % G, N, "%s.shape[1]" % U)]
         if sh != wantsh:
             rep.violate(R, construct, "block array shape (%s) is not (phases, individuals, requested blocks, traits) = (%s)" % (", ".join(sh), ", ".join(wantsh)), where(f, alloc),
                         ",".join(wantsh), ",".join(sh))
@@ -734,7 +734,7 @@ def check_reductions(prog, rep):
             continue
         rets = [s for s in walk_no_nested(p.getter.node) if isinstance(s, ast.Return)]
         t = _strip(dump(rets[0].value)) if rets else ""
-        if t == "self._haplomat.shape[0]":
+        if t in ("self._haplomat.shape[0]", "len(self._haplomat)"):
             rep.ok(R, C.qualname + ".ploidy", "ploidy is the number of phases (axis 0) of the block array")
         elif t.startswith("self._haplomat.shape["):
             rep.violate(R, C.qualname + ".ploidy", "ploidy is read from %s: axis 0 holds the chromosome phases" % t, where(p.getter), "self._haplomat.shape[0]", t)
@@ -798,7 +798,7 @@ def check_reductions(prog, rep):
             rep.violate(R, construct, "_calc_ohvmat receives xmap=%s, not the cross map %s" % (dump(bypar.get("xmap")) if bypar.get("xmap") is not None else None, xm), where(f, c))
             good = False
         pl = _strip(dump(bypar["ploidy"])) if "ploidy" in bypar else None
-        if pl not in ("%s.shape[0]" % hm, "pgmat.ploidy"):
+        if pl not in ("%s.shape[0]" % hm, "len(%s)" % hm, "pgmat.ploidy"):
             if pl is not None and pl.startswith(hm + ".shape["):
                 rep.violate(R, construct, "ploidy is taken from %s: axis 0 of the block array holds the phases" % pl, where(f, c), "%s.shape[0]" % hm, pl)
             else:
